@@ -18,6 +18,10 @@ def run(tier, runner):
     r_lex = sets.lex_sib(progs)
     r_gr = sets.ss_grow(progs)
     r_is = sets.iter_state(progs)
+    r_nm = sets.node_move(progs)
+    r_nm.findings = [f for f in r_nm.findings if 'SmallSet' in f.key]
+    r_ci = sets.cmp_init(progs)
+    r_ci.findings = [f for f in r_ci.findings if 'SmallSet' in f.key]
     r_lex.require(4, 'state combinations of the ordering comparison')
     r_gr.require(3, 'grow call sites')
     r_state.require(25, 'writes to the two containers of SmallSet')
@@ -26,7 +30,7 @@ def run(tier, runner):
     r_node.require(2, 'insert(node) overloads')
     r_sib.require(8, 'state-dependent const members')
     return {
-        'results': [r_state, r_dup, r_cmp, r_node, r_sib, r_mo, r_lex, r_gr, r_is],
+        'results': [r_state, r_dup, r_cmp, r_node, r_sib, r_mo, r_lex, r_gr, r_is, r_ci, r_nm],
         'explanation': 'C04 as stated (membership / size / comparison results over histories) is not decided.  Decided: SS-STATE - exactly one of the two '
                        'containers is written in each state (typestate on isSmall()/isSmallContFull()/grow() facts per operand; grow() moves all of the '
                        'vector into the set and clears it; private helpers are entered with their state established by every caller); SS-DUP - no path '
